@@ -32,6 +32,13 @@ def scratch_copy(repo):
 def apply_edits(root, edits):
     """edits: [(relative file, old, new)]; each old must occur exactly once. Returns None or reason."""
     for rel, old, new in edits:
+        if rel == "@patch":
+            # a stored unified diff (seeded change or neutral refactoring written by a sub-agent)
+            import subprocess
+            r = subprocess.run(["patch", "-s", "-p1", "-i", old], cwd=root, stdout=subprocess.PIPE, stderr=subprocess.STDOUT, text=True)
+            if r.returncode != 0:
+                return "patch %s does not apply (%s)" % (os.path.basename(os.path.dirname(old)), r.stdout.strip()[:80])
+            continue
         p = os.path.join(root, rel)
         if not os.path.exists(p):
             return "file %s missing" % rel
